@@ -468,6 +468,19 @@ func init() {
 			f[0] = ch
 			return PtrV{Obj: w.e.alloc(s, StructV{f})}
 		},
+		"time.NewTicker": func(w *W, s *State, args []Value) Value {
+			// a ticker that never fires by itself (real tickers are outside the claim)
+			if d, ok := concInt(args[0]); ok && d <= 0 {
+				panic(pathEnd{"panic: non-positive interval for NewTicker"})
+			}
+			ch := ChanV{Obj: w.e.alloc(s, &ChanData{Cap: 1})}
+			v := zeroValue(w.e.tickerType).(StructV)
+			f := append([]Value(nil), v.F...)
+			f[0] = ch
+			return PtrV{Obj: w.e.alloc(s, StructV{f})}
+		},
+		"(*time.Ticker).Stop":  noop,
+		"(*time.Ticker).Reset": noop,
 		"time.After": func(w *W, s *State, args []Value) Value {
 			return ChanV{Obj: w.e.alloc(s, &ChanData{Cap: 1})}
 		},
@@ -1165,7 +1178,27 @@ func (w *W) assert(s *State, c *Term, msg string, known string) {
 	e.sitesHit[site]++
 	e.mu.Unlock()
 	q := append(append([]*Term(nil), s.pc...), Not(c))
-	r := w.solver.Check(q, true, QOblig)
+	var r Result
+	nc := Not(c)
+	if _, isConst := nc.BoolVal(); isConst {
+		r = w.solver.Check(q, true, QOblig)
+	} else {
+		// sliced obligation first (sound for unsat); a sat answer is re-asked on the full
+		// path condition to obtain a complete counterexample
+		sl := append(sliceFor(s.pc, nc), nc)
+		if st, ok := cachedVerdict(sl); ok && st == "unsat" {
+			atomic.AddInt64(&stats.CacheHits, 1)
+			r = Result{Status: "unsat", Backend: "cache"}
+		} else {
+			r = w.solver.Check(sl, false, QOblig)
+			if r.Status == "unsat" {
+				verdictCache.Store(conjKey(sl), "unsat")
+				q = sl
+			} else {
+				r = w.solver.Check(q, true, QOblig)
+			}
+		}
+	}
 	switch r.Status {
 	case "unsat":
 		atomic.AddInt64(&e.assertsOK, 1)
